@@ -7,7 +7,9 @@ def runLineT (line : String) : String :=
   let toks := (line.trimAscii.toString.splitOn " ").filter (· ≠ "")
   match opTree toks with
   | some r => r
-  | none => "bad-op"
+  | none => match opTree2 toks with
+    | some r => r
+    | none => "bad-op"
 
 partial def loopT (hin hout : IO.FS.Stream) : IO Unit := do
   let line ← hin.getLine
